@@ -163,9 +163,13 @@ void harness(void)
     IT(dtor)(L2);
     ASSERT(n_up_dealloc == 1 && outstanding() == 0, "C05/C12: the new owner returns the block exactly once");
 #elif OP == OP_MOVE_ASSIGN
-    ledger_add(B, bs); ledger_add(B2, bs2);
+    /* the target is a live allocator, or (mf) a moved-from one: cur_ == N and block_ a stale copy of a block that now
+       belongs to another object -- it must be assignable and must not release that block */
+    uint8_t mf = nondet_u8() & 1;
+    ledger_add(B, bs); if (!mf) ledger_add(B2, bs2);
     establish(L, B, bs, tops, &cur);
     establish(L2, B2, bs2, tops2, &cur2);
+    if (mf) IT(set)(L2, B2, bs2, NIT, 7);
     IT(move_assign)(L2, L);
     ASSERT(IT(cur_iteration)(L2) == cur, "C12: destination continues in the source's iteration");
     for (int i = 0; i < NIT; ++i) ASSERT(IT(top)(L2, i) == tops[i], "C12: destination has every stack top of the source");
@@ -173,7 +177,7 @@ void harness(void)
     IT(dtor)(L);
     IT(dtor)(L2);
     ASSERT(outstanding() == 0, "C05/C12: after move assignment and destruction of both objects every block was returned (the target's former block included)");
-    ASSERT(n_up_dealloc == 2, "C05: each of the two blocks returned exactly once");
+    ASSERT(n_up_dealloc == (mf ? 1 : 2), "C05/C12: each block owned by the pair returned exactly once; a moved-from target releases nothing");
 #elif OP == OP_TRY_DEALLOC
     ledger_add(B, bs);
     establish(L, B, bs, tops, &cur);
